@@ -106,6 +106,8 @@ Record req := mkReq {
   r_version : str;                       (* request.version *)
   r_connection : option str;             (* request.headers.get("CONNECTION") *)
   r_head : bool;                         (* request.command == "HEAD" *)
+  r_connection_close : bool;             (* request.connection_close: the parser's verdict that the
+                                            connection cannot be reused after this message *)
   r_error : option ((str * str) * str);  (* request.error: ((code, reason), body) *)
 }.
 
@@ -314,14 +316,14 @@ Definition bh_clen (a : bh_acc) (t : task) : option str * task :=
   | _, _ => (ac_cl a, t)
   end.
 
-Definition bh_conn (connection : str) (clh : option str) (t : task) : task :=
+Definition bh_conn (connection : str) (force_close : bool) (clh : option str) (t : task) : task :=
   if negb (t_v11 t) then
-    if beqb connection (lit "keep-alive") then
+    if beqb connection (lit "keep-alive") && negb force_close then
       if negb (truthy clh) then set_close_on_finish t
       else set_rh (t_rh t ++ [(lit "Connection", lit "Keep-Alive")]) t
     else set_close_on_finish t
   else
-    let t := if beqb connection (lit "close") then set_close_on_finish t else t in
+    let t := if beqb connection (lit "close") || force_close then set_close_on_finish t else t in
     if negb (truthy clh) then
       let t := if has_body t
                then set_chunked true (set_rh (t_rh t ++ [(lit "Transfer-Encoding", lit "chunked")]) t)
@@ -353,7 +355,7 @@ Definition bh_prepare (c : cfg) (r : req) (t : task) : task :=
   let a := bh_loop t in
   let t := set_rh (ac_rh a) t in
   let '(clh, t) := bh_clen a t in
-  let t := bh_conn (request_connection r) clh t in
+  let t := bh_conn (request_connection r) (r_connection_close r) clh t in
   let t := bh_server c a t in
   bh_date c a t.
 
@@ -700,7 +702,7 @@ Definition ladder (c : cfg) (r : req) (disc : option nat) (x : exec_result) (raw
       else if is_Exception e then
         if negb (t_wrote_header t) then
           let body := if c_expose_tracebacks c then c_tb c else internal_error_text in
-          let er := mkReq (r_version r) (r_connection r) false (Some (err_InternalServerError, body)) in
+          let er := mkReq (r_version r) (r_connection r) false false (Some (err_InternalServerError, body)) in
           let t1 := new_task (r_version r) true in
           let x1 := task_service c er disc (t1, ch) (inr (err_InternalServerError, body)) in
           match x_out x1 with
